@@ -300,6 +300,105 @@ func c16CheckRead(v *fw.V, route string, val c16Val, typ schema.ItemType, got an
 	}
 }
 
+// c16Scribble edits a composite value in place the way a careless reader (or the caller that stored it)
+// might: nested containers first, then every map entry deleted (and a new key added), every slice element
+// overwritten. It reports whether anything could be edited.
+func c16Scribble(x any) bool {
+	if x == nil {
+		return false
+	}
+	return scribble(reflect.ValueOf(x))
+}
+
+func scribble(rv reflect.Value) bool {
+	switch rv.Kind() {
+	case reflect.Pointer, reflect.Interface:
+		if rv.IsNil() {
+			return false
+		}
+		return scribble(rv.Elem())
+	case reflect.Map:
+		if rv.IsNil() {
+			return false
+		}
+		done := false
+		for _, k := range rv.MapKeys() {
+			scribble(rv.MapIndex(k))
+		}
+		for _, k := range rv.MapKeys() {
+			rv.SetMapIndex(k, reflect.Value{})
+			done = true
+		}
+		if rv.Type().Key().Kind() == reflect.String && rv.Type().Elem().Kind() == reflect.Interface {
+			rv.SetMapIndex(reflect.ValueOf("scribbled").Convert(rv.Type().Key()), reflect.ValueOf(true))
+			done = true
+		}
+		return done
+	case reflect.Slice, reflect.Array:
+		done := false
+		for i := 0; i < rv.Len(); i++ {
+			e := rv.Index(i)
+			scribble(e)
+			if !e.CanSet() {
+				continue
+			}
+			done = true
+			switch e.Kind() {
+			case reflect.Interface:
+				e.Set(reflect.ValueOf("scribbled"))
+			case reflect.String:
+				e.SetString("scribbled")
+			case reflect.Bool:
+				e.SetBool(!e.Bool())
+			case reflect.Int, reflect.Int8, reflect.Int16, reflect.Int32, reflect.Int64:
+				e.SetInt(e.Int() ^ 1)
+			case reflect.Uint, reflect.Uint8, reflect.Uint16, reflect.Uint32, reflect.Uint64:
+				e.SetUint(e.Uint() ^ 1)
+			case reflect.Float32, reflect.Float64:
+				e.SetFloat(e.Float() + 1)
+			default:
+				e.Set(reflect.Zero(e.Type()))
+			}
+		}
+		return done
+	case reflect.Struct:
+		done := false
+		for i := 0; i < rv.NumField(); i++ {
+			f := rv.Field(i)
+			switch f.Kind() {
+			case reflect.Map, reflect.Slice, reflect.Pointer, reflect.Interface, reflect.Struct, reflect.Array:
+				if f.CanInterface() && scribble(f) {
+					done = true
+				}
+			}
+		}
+		return done
+	}
+	return false
+}
+
+// c16Reread: what a reader does with the value it was handed, and what the caller does afterwards with the
+// value it stored, must not change what the store holds: the value read first is edited in place, then the
+// original, and the same route is read again after each.
+func c16Reread(v *fw.V, route string, pristine c16Val, given any, first any, read func() (any, schema.ItemType, bool)) {
+	if c16Scribble(first) {
+		v.Add("rereads-after-reader-edit", 1)
+		if got, typ, ok := read(); !ok {
+			v.Violate("value-lost", route+"/after-reader-edit/"+kindName(pristine.V), "%s: value %s gone after the reader edited the value it had been handed", route, pristine.Name)
+		} else {
+			c16CheckRead(v, route+"/after-reader-edit", pristine, typ, got)
+		}
+	}
+	if c16Scribble(given) {
+		v.Add("rereads-after-caller-edit", 1)
+		if got, typ, ok := read(); !ok {
+			v.Violate("value-lost", route+"/after-caller-edit/"+kindName(pristine.V), "%s: value %s gone after the caller edited the value it had stored", route, pristine.Name)
+		} else {
+			c16CheckRead(v, route+"/after-caller-edit", pristine, typ, got)
+		}
+	}
+}
+
 func trunc(v any) any {
 	s := fmt.Sprintf("%#v", v)
 	if len(s) > 200 {
@@ -321,7 +420,10 @@ func c16Direct(c *c16Case, v *fw.V) {
 			continue
 		}
 		c16CheckRead(v, "NewValue", val, sv.Type(), got)
+		pristine := c16Values()[i]
+		c16Reread(v, "NewValue", pristine, val.V, got, func() (any, schema.ItemType, bool) { return sv.Value(), sv.Type(), true })
 		// through the locator
+		val = c16Values()[i]
 		loc := data.NewFlowDataLocator()
 		if guard(v, fmt.Sprintf("SetVariable(%s)", val.Name), func() { loc.SetVariable("x", val.V) }) {
 			var g2 any
@@ -332,6 +434,18 @@ func c16Direct(c *c16Case, v *fw.V) {
 				} else {
 					it := loc.CloneVariables()["x"]
 					c16CheckRead(v, "locator", val, it.Type(), g2)
+					c16Reread(v, "locator", pristine, val.V, g2, func() (any, schema.ItemType, bool) {
+						g, ok := loc.GetVariable("x")
+						if !ok {
+							return nil, "", false
+						}
+						return g, loc.CloneVariables()["x"].Type(), true
+					})
+					// the value handed out by a clone of the variables
+					c16Reread(v, "locator-clone", pristine, nil, loc.CloneVariables()["x"].Value(), func() (any, schema.ItemType, bool) {
+						it := loc.CloneVariables()["x"]
+						return it.Value(), it.Type(), true
+					})
 				}
 			}
 		}
@@ -448,6 +562,13 @@ func c16Engine(c *c16Case, env *fw.Env, v *fw.V) {
 					return
 				}
 				c16CheckRead(v, "WithVariables", val, in.Proc.Locator().CloneVariables()["x"].Type(), got)
+				c16Reread(v, "WithVariables", c16Values()[i], val.V, got, func() (any, schema.ItemType, bool) {
+					g, ok := in.Proc.Locator().GetVariable("x")
+					if !ok {
+						return nil, "", false
+					}
+					return g, in.Proc.Locator().CloneVariables()["x"].Type(), true
+				})
 				// (the task property "x" is declared without a type, i.e. as string: its
 				// declared type governs what it shows, so only absence of panics is checked)
 				_ = next[0].Trace.GetProperties()["x"]
@@ -458,20 +579,43 @@ func c16Engine(c *c16Case, env *fw.Env, v *fw.V) {
 					return
 				}
 				c16CheckRead(v, "DoWithResults", val, in.Proc.Locator().CloneVariables()["r"].Type(), got)
+				c16Reread(v, "DoWithResults", c16Values()[i], val.V, got, func() (any, schema.ItemType, bool) {
+					g, ok := in.Proc.Locator().GetVariable("r")
+					if !ok {
+						return nil, "", false
+					}
+					return g, in.Proc.Locator().CloneVariables()["r"].Type(), true
+				})
 			case "objects":
 				it, ok := next[0].Trace.GetDataObjects()["o"]
 				if !ok || it == nil {
 					v.Violate("value-lost", c.Route+"/"+kindName(val.V), "declared data output %s (%T) not visible to the next task", val.Name, val.V)
 					return
 				}
-				c16CheckRead(v, "DoWithObjects", val, it.Type(), it.Value())
+				first := it.Value()
+				c16CheckRead(v, "DoWithObjects", val, it.Type(), first)
+				c16Reread(v, "DoWithObjects", c16Values()[i], val.V, first, func() (any, schema.ItemType, bool) {
+					it, ok := next[0].Trace.GetDataObjects()["o"]
+					if !ok || it == nil {
+						return nil, "", false
+					}
+					return it.Value(), it.Type(), true
+				})
 			case "withobjects":
 				it, ok := next[0].Trace.GetDataObjects()["wo"]
 				if !ok || it == nil {
 					v.Violate("value-lost", c.Route+"/"+kindName(val.V), "data object given to WithDataObjects (%s %T) not visible to the task", val.Name, val.V)
 					return
 				}
-				c16CheckRead(v, "WithDataObjects", val, it.Type(), it.Value())
+				first := it.Value()
+				c16CheckRead(v, "WithDataObjects", val, it.Type(), first)
+				c16Reread(v, "WithDataObjects", c16Values()[i], val.V, first, func() (any, schema.ItemType, bool) {
+					it, ok := next[0].Trace.GetDataObjects()["wo"]
+					if !ok || it == nil {
+						return nil, "", false
+					}
+					return it.Value(), it.Type(), true
+				})
 			}
 			v.Add("values", 1)
 		})
